@@ -278,6 +278,10 @@ func projectColumns(selectList sql.SelectList, qfields storage.Fields, rows []*s
 
 		// replace field name with alias
 		if selectCol.AsClause != "" {
+			// rename a copy: the same source column may be selected more than
+			// once, with different aliases or without one
+			renamed := *field
+			field = &renamed
 			field.Column = selectCol.AsClause
 		}
 
